@@ -30,10 +30,29 @@ class NPProxy(object):
         return v
 
 
+ORDERS = ('C', 'F', 'T', 'S')
+DTYPES = ('float64', 'int64', 'float32')
+
+
+def represent(Wlist, rep):
+    """the same logical matrix in another memory layout / dtype: C-contiguous, Fortran-ordered, a transposed view,
+    or a non-contiguous slice of a larger array"""
+    dt = np.dtype((rep or {}).get('dtype', 'float64')); order = (rep or {}).get('order', 'C')
+    A = np.array(Wlist, dtype=dt); n = len(A)
+    if order == 'F':
+        return np.asfortranarray(A)
+    if order == 'T':
+        return np.ascontiguousarray(A.T).T
+    if order == 'S':
+        big = np.full((2 * n + 1, 2 * n + 1), 7, dtype=dt); big[1::2, 1::2] = A
+        return big[1::2, 1::2]
+    return A
+
+
 def run_case(case):
     bct = import_bct()
     import bct.algorithms.reference as ref
-    r = case['routine']; W = np.array(case['W'], dtype=float); n = len(W)
+    r = case['routine']; W = represent(case['W'], case.get('rep')); n = len(W)
     und = r in UND
     rec = Recorder(case['seed'])
     W_before = W.copy()
@@ -61,11 +80,11 @@ def run_case(case):
         X, rr = out
         X = np.asarray(X, dtype=float)
         res['r'] = [float(x) for x in rr]
-        Win = W.copy(); np.fill_diagonal(Win, 0)       # the routine's documented first step
+        Win = np.array(case['W'], dtype=float); np.fill_diagonal(Win, 0)       # the routine's documented first step
     else:
         X, eff = out
         X = np.asarray(X, dtype=float); res['eff'] = int(eff)
-        Win = W
+        Win = np.array(case['W'], dtype=float)
     res['X'] = X.tolist()
     res['integral'] = bool(np.all(X == np.round(X)))     # mat_str truncates: never compare a non-integer output as if it were one
     if case.get('malformed'):
@@ -193,6 +212,8 @@ def gen_cases(rs, tier):
             else:
                 c.setdefault('itr', int(rs.choice([0, 1, 1, 2, 3])) if len(W) <= 9 else 1)
             c.update({k: v for k, v in kw.items() if k in ('itr', 'freq')})
+            if rs.rand() < .4:      # representation axis: same logical matrix, other memory order / dtype
+                c['rep'] = {'order': ORDERS[int(rs.randint(len(ORDERS)))], 'dtype': DTYPES[int(rs.choice([0, 0, 1, 2]))]}
             cases.append(c)
             return c
 
@@ -259,8 +280,10 @@ def main():
                       'densities .3-1, negative fraction .2-.8, symmetric for the _und routines, regular circulant sign patterns (all strength products tie), '
                       'bin_swaps in {0,1,2,5}, wei_freq in {0,.1,.2,.25,.3,.4,.5,2/3,.7,1} (1/wei_freq non-integer and exactly half-way included), '
                       'all-positive (binary stage skipped) / all-negative / full-with-one-negative edge cases and an asymmetric malformed stream; '
+                      'a representation axis (memory order C/F/transposed view/strided slice x dtype float64/int64/float32) on 40 % of the cases; '
                       'non-trivial = distinct case whose output differs from the input')
-    ck.assumptions += ['inputs are integer-valued float matrices (exact arithmetic in the dealing stage, exact comparison of outputs)',
+    ck.assumptions += ['inputs are integer-valued matrices (exact arithmetic in the dealing stage, exact comparison of outputs); 40 % of the cases are handed to bct in another '
+                       'representation of the same logical matrix (Fortran order, transposed view, non-contiguous slice; int64 / float32) - the model and the predicates see the logical matrix',
                        'np.argsort results inside the null models are taken from the real run as an oracle (recorded through a proxy of the module global np, /repo unedited); '
                        'the model checks each is a permutation, which is all the theorems use',
                        'randmio_*_signed are called on empty-diagonal input (property quantifier); the null models clear the diagonal themselves']
@@ -291,7 +314,10 @@ def main():
                 nontrivial_key=digest([rt, c['W'], c['itr'], c.get('freq'), r['draws']]) if moved else None)
         if r['status'] == 'timeout':
             continue
-        cond = {'routine': rt}
+        rep = c.get('rep') or {}
+        ck.count('rep:order=%s' % rep.get('order', 'C')); ck.count('rep:dtype=%s' % rep.get('dtype', 'float64'))
+        cond = {'routine': rt, 'int_dtype': rep.get('dtype', 'float64').startswith('int'),
+                'sorting_rounds': rt in NULL and c.get('freq', 0) != 0}
         if c.get('malformed'):
             ck.count('malformed:' + c['malformed'])
             if rt == 'null_model_und_sign' and not (r['status'] == 'exc' and exc_kind(r['exc']) == 'BCTParamError'):
